@@ -90,6 +90,9 @@ def make_form(rng, i):
             b, lg = split_header(h)
             if b in ("label", "hint", "guidance_hint", "constraint_message", "required_message"):
                 r.cells[h] = hostile_with_refs(f"{b[:3]}.{r.name}.{lg or 'x'}")
+                if rng.random() < 0.12:
+                    # a line break inside the cell (spreadsheets, quoted CSV fields and dict input carry them)
+                    r.cells[h] = r.cells[h] + rng.choice(["\n", "\n\n", " \n"]) + "second.line"
         if r.kind == "q" and rm_visible(r):
             bt = base_type(r)
             if rng.random() < 0.3 and bt in ("text", "note", "integer", "select_one", "date"):
@@ -505,7 +508,24 @@ def repeated_text_forms(ctx):
                     break
 
 
+def loop_text_forms(ctx):
+    """Looped questions (begin loop over <list>): every copy shows its own choice's label, per language, hostile characters intact."""
+    from .. import looptext
+    rng = ctx.rng("looptext")
+    frags = ["<b>", "&amp;", "]]>", "a < b", '"q"', "\u00e9\u05d0", "&", "</label>", "{x}", "#"]
+    for k, (sheets, exp, sig) in enumerate(looptext.cases(rng, lambda: rng.choice(frags))):
+        if not ctx.mine(k):
+            continue
+        o, viols = looptext.judge(sheets, exp)
+        ctx.ctr("loop_text_forms")
+        ctx.ctr("loop_text_cells", len(exp))
+        ctx.case(sig=sig)
+        for key, msg in viols[:4]:
+            ctx.viol(key, msg, {"klass": "loop-text", "sheets_md": common.sheets_to_md(sheets)[:2500], "sheets": {n: [list(h), r] for n, (h, r) in sheets.items()}})
+
+
 def run_shard(ctx):
+    loop_text_forms(ctx)
     from ..hooks import counters, install_outval_hook
     install_outval_hook()
     pl = plan(ctx.tier, ctx.seed)
@@ -525,6 +545,9 @@ def run_shard(ctx):
 
 def replay(w):
     def chk(ctx, wit):
+        if wit.get("klass") == "loop-text":
+            loop_text_forms(ctx)  # the family is small and deterministic: run it whole
+            return
         if wit.get("klass") in ("hook", "repeated"):
             print("hook / repeated-text witness: re-run ./check C06")
             return
